@@ -49,7 +49,7 @@ def items_line(rng, ws):
     return ",".join(its) if its else "-"
 
 
-def gen_merge(rng, tier, n_quick=2000):
+def gen_merge(rng, tier, n_quick=8000):
     n = {"quick": n_quick, "thorough": n_quick * 40, "search": n_quick}[tier]
     out = []
     for _ in range(n):
@@ -86,7 +86,7 @@ def merge_describe(c):
 
 # ----------------------------------------------------------------------------- c09.bestmatch
 def gen_bestmatch(rng, tier):
-    n = {"quick": 2000, "thorough": 60000, "search": 2000}[tier]
+    n = {"quick": 8000, "thorough": 200000, "search": 2000}[tier]
     out = []
     while len(out) < n:
         files = [f for f, k in gen_tree(rng, rng.random() < 0.1).items() if k in "LX"]
@@ -141,8 +141,8 @@ FUNCS = ["g", "h", "k"]
 
 
 def gen_project(rng, tier):
-    n = {"quick": 30, "thorough": 600, "search": 30}[tier]
-    nruns = {"quick": 6, "thorough": 12, "search": 6}[tier]
+    n = {"quick": 300, "thorough": 6000, "search": 60}[tier]
+    nruns = {"quick": 9, "thorough": 12, "search": 6}[tier]
     out = []
     for _ in range(n):
         _case_no[0] += 1
@@ -216,7 +216,7 @@ def project_describe(c):
 
 LEGS = [
     Leg("c09.merge", gen_merge, shrink=shrink_items, nontrivial=merge_nontrivial, describe=merge_describe),
-    Leg("c09.genmaps", lambda rng, tier: gen_merge(rng, tier, 700), shrink=shrink_items, nontrivial=merge_nontrivial,
+    Leg("c09.genmaps", lambda rng, tier: gen_merge(rng, tier, 3000), shrink=shrink_items, nontrivial=merge_nontrivial,
         describe=merge_describe, per_case_s=0.2),
     Leg("c09.bestmatch", gen_bestmatch, shrink=shrink_bestmatch, describe=bm_describe, per_case_s=0.2,
         nontrivial=lambda c: len(c.split(" ")[2].split(",")) >= 2),
